@@ -142,6 +142,7 @@ func runUnit(u Unit, cfg *PropConfig, tier string, workdir string, res *checkRes
 	e := NewEngine()
 	e.allocBound = cfg.AllocBound
 	ensuresCoverOn = cfg.EnsuresCover
+	e.propID = cfg.ID
 	dir := filepath.Join(repoDir, u.Module)
 	t0 := time.Now()
 	if err := e.Load(dir, u.Packages); err != nil {
@@ -758,6 +759,9 @@ func (e *Engine) discharge(workdir string, timeout int) {
 			if r.Status == "unsat" || r.Status == "sat" {
 				r.Secs += o.Result.Secs
 				o.Result = &r
+			} else if rs := solveSeeds(workdir, fmt.Sprintf("%s.%d", o.Name, i), q, 2*timeout); rs.Status == "unsat" {
+				rs.Secs += o.Result.Secs + r.Secs
+				o.Result = &rs
 			}
 		}(i, o)
 	}
